@@ -43,6 +43,14 @@ type StopCase struct {
 	// IdleMs: the master pauses this long in front of its third packet (a long-lived, mostly idle attempt:
 	// anything the library does periodically in the background gets a chance to run)
 	IdleMs int `json:",omitempty"`
+	// QuietAfter: once the stop cause has fired on the client side (cancellation, handler / mapper failure) or the
+	// offending event has been sent, the master sends nothing more and keeps the connection open: whatever the
+	// library has to wake up or close, it must do by itself
+	QuietAfter bool `json:",omitempty"`
+	// LateDeadlineMs > 0: the caller's context carries this deadline.  When it had not expired by the time Stream
+	// returned, the harness waits until it has before it calls Error(): an expired context of the caller does not
+	// change why the stream ended
+	LateDeadlineMs int `json:",omitempty"`
 }
 
 // StopObs is everything observed.
@@ -137,7 +145,14 @@ func runStop(c *StopCase) *StopObs {
 	if c.Fault.Kind == "cancel_dial" {
 		network = "verifdial"
 	}
-	ss, err := newSessionNet(c.H.Tables, 55, start, network)
+	var dsnParams []string
+	if c.Fault.Kind == "dump_unsendable" {
+		// the session is set up, then the dump command itself cannot be sent: it is larger than the packet limit
+		// the caller configured (64 bytes leave room for the checksum statement but not for this file name)
+		dsnParams = []string{"maxAllowedPacket=64"}
+		start.File = strings.Repeat("long-binlog-base-name-", 3) + ".000001"
+	}
+	ss, err := newSessionNet(c.H.Tables, 55, start, network, dsnParams...)
 	if err != nil {
 		obs.Inconclusive = "harness: " + err.Error()
 		return obs
@@ -177,8 +192,13 @@ func runStop(c *StopCase) *StopObs {
 	cleanup := func() {}
 	ctx, cancel := context.WithCancel(context.Background())
 	defer cancel()
-	var cancelled int32
-	doCancel := func() { atomic.StoreInt32(&cancelled, 1); cancel() }
+	if c.LateDeadlineMs > 0 {
+		var lcancel context.CancelFunc
+		ctx, lcancel = context.WithTimeout(ctx, time.Duration(c.LateDeadlineMs)*time.Millisecond)
+		defer lcancel()
+	}
+	var cancelled, quiet int32
+	doCancel := func() { atomic.StoreInt32(&cancelled, 1); atomic.StoreInt32(&quiet, 1); cancel() }
 	plan := &fakemaster.ConnPlan{}
 	var stRef atomic.Value
 	handlerBlocked := int32(0)
@@ -186,6 +206,8 @@ func runStop(c *StopCase) *StopObs {
 	switch f.Kind {
 	case "refuse":
 		ss.m.CloseListener()
+		at = attempt{l: l, pacing: c.Pacing}
+	case "dump_unsendable":
 		at = attempt{l: l, pacing: c.Pacing}
 	case "err_handshake":
 		plan.HandshakeErr = fakemaster.ErrPacket(1040, "08004", "Too many connections")
@@ -274,6 +296,32 @@ func runStop(c *StopCase) *StopObs {
 			if f.Kind == "cancel_out" && i == f.At {
 				doCancel()
 			}
+			if c.QuietAfter {
+				q := atomic.LoadInt32(&quiet) == 1
+				switch f.Kind {
+				case "unsupported", "invalid", "undecodable":
+					last := f.At
+					if f.Kind == "undecodable" && f.Sub%6 == 4 {
+						last++ // an unknown checksum algorithm only bites on the event after the format description
+					}
+					st, _ := stRef.Load().(*attemptState)
+					if st != nil {
+						st.mu.Lock()
+						if n := st.steps - 1; f.At > n { // the fault point is clamped to the script
+							last = last - f.At + n
+						}
+						st.mu.Unlock()
+					}
+					q = q || i > last
+				case "mapper_err", "mapper_cols":
+					ss.mp.mu.Lock()
+					q = q || ss.mp.fired
+					ss.mp.mu.Unlock()
+				}
+				if q {
+					return false // nothing more is sent; the connection stays open until the replica closes it
+				}
+			}
 			if c.IdleMs > 0 && i == 2 {
 				time.Sleep(time.Duration(c.IdleMs) * time.Millisecond)
 			}
@@ -332,6 +380,7 @@ func runStop(c *StopCase) *StopObs {
 			err := innerHandler(tx, st)
 			if err != nil {
 				obs.CauseFired = true
+				atomic.StoreInt32(&quiet, 1)
 			}
 			return err
 		}
@@ -396,10 +445,17 @@ func runStop(c *StopCase) *StopObs {
 	at.afterReturn = func(st *attemptState) {
 		callsAtReturn = atomic.LoadInt32(&st.calls)
 		obs.CallerCancelled = atomic.LoadInt32(&cancelled) == 1
+		if c.LateDeadlineMs > 0 {
+			if ctx.Err() != nil {
+				obs.CallerCancelled = true // the deadline passed while Stream was running: a caller-side stop
+			} else if dl, ok := ctx.Deadline(); ok {
+				time.Sleep(time.Until(dl) + time.Millisecond)
+			}
+		}
 		// the first Error() call comes IMMEDIATELY after Stream returned, as a caller would do it
 		callError(st)
 		// the connection must be closed by the library within the bound (when the master did not close it first)
-		if _, seen := st.dump(); seen || f.Kind == "err_query" {
+		if _, seen := st.dump(); seen || f.Kind == "err_query" || f.Kind == "dump_unsendable" {
 			select {
 			case <-plan.PeerClosed:
 				obs.PeerClosed = true
@@ -440,7 +496,7 @@ func runStop(c *StopCase) *StopObs {
 		}
 		st.mu.Unlock()
 		obs.CauseFired = obs.DumpSeen && plan.Written() > at
-	case f.Kind == "refuse" || f.Kind == "err_handshake" || f.Kind == "err_query":
+	case f.Kind == "refuse" || f.Kind == "err_handshake" || f.Kind == "err_query" || f.Kind == "dump_unsendable":
 		obs.CauseFired = true
 	}
 
